@@ -123,8 +123,16 @@ fn history(s: &Session, seed: u64, len: usize, ch: &mut Chooser) -> Result<Strin
             (d, reconnect_proof(&s.user_norm, &d, &current, &s.k), format!("right-proof-for-special-client-data#{which}"))
         };
         // the server's refresh draw: fresh by default, or (deviation) a repeat of an earlier challenge value
-        let r = ch.pick(1 + challenges.len(), "refresh");
-        let refresh = if r == 0 { fresh16(seed, &s.name, attempt, "server") } else { challenges[r - 1] };
+        let r = ch.pick(1 + challenges.len() + 2, "refresh");
+        let refresh = if r == 0 {
+            fresh16(seed, &s.name, attempt, "server")
+        } else if r <= challenges.len() {
+            challenges[r - 1]
+        } else if r == challenges.len() + 1 {
+            [0u8; 16] // the RNG is allowed to answer all zeros: the challenge must still be replaced by what was drawn
+        } else {
+            [0xFF; 16]
+        };
         let reference = reconnect_proof(&s.user_norm, &cd, &current, &s.k);
         let want = proof == reference;
         let (got, used, log) = with_script(&refresh, || server.verify_reconnection_attempt(cd, proof));
@@ -137,8 +145,9 @@ fn history(s: &Session, seed: u64, len: usize, ch: &mut Chooser) -> Result<Strin
         }
         let after = *server.reconnect_challenge_data();
         let drew_expected = used == 16 && log.len() == 1;
-        if r == 0 {
-            // fresh bytes were supplied: the challenge must be new
+        let supplied_new = r == 0 || (r > challenges.len() && !challenges.contains(&refresh));
+        if supplied_new {
+            // bytes never seen before were supplied: the challenge must be new
             if after == current {
                 return Err(format!("attempt {attempt} ({what}, verdict {got}): the server challenge was not replaced"));
             }
